@@ -16,12 +16,13 @@ structure SearchVars where
   pos : Nat
 deriving DecidableEq, Repr
 
-/-- one history search from the loop: on a hit the entry and the match offset become text and
-    cursor, the index moves to the hit; on a miss text, cursor stay and the flag drops -/
+/-- one history search from the loop, started at `hi`: on a hit the entry and the match offset become
+    text and cursor, the index moves to the hit; on a miss text, cursor AND index (`c.hi`, the entry on
+    display) stay and the flag drops -/
 def searchTry (cfg : EdCfg) (c : SearchVars) (sb : Text) (hi : Nat) (d : Dir) : SearchVars :=
   match (memHist cfg).search sb hi d with
   | some (i, e, off) => { sb := sb, hi := i, d := d, succ := true, buf := e, pos := off }
-  | none => { sb := sb, hi := hi, d := d, succ := false, buf := c.buf, pos := c.pos }
+  | none => { sb := sb, hi := c.hi, d := d, succ := false, buf := c.buf, pos := c.pos }
 
 /-- the effect of one decoded command on the loop variables; `none` = the command is not a search
     key (it ends the loop: `abort` restores, everything else is handed back) -/
@@ -98,12 +99,12 @@ theorem searchLoop_refines (backup : Text) (backupPos : Nat) :
             | some (idx, entry, pos) => do
               lb S U (LB.update S U entry pos)
               searchLoop S U cfg mark backup backupPos fuel sb idx d true
-            | none => searchLoop S U cfg mark backup backupPos fuel sb hi d false)
+            | none => searchLoop S U cfg mark backup backupPos fuel sb c.hi d false)
           (SearchPost cfg (searchTry cfg c sb hi d)) (fun _ _ => True) s3 := by
       intro mark sb hi d
       unfold searchTry
       cases (memHist cfg).search sb hi d with
-      | none => exact ih mark ⟨sb, hi, d, false, c.buf, c.pos⟩ s3 hg3 hb3 hp3
+      | none => exact ih mark ⟨sb, c.hi, d, false, c.buf, c.pos⟩ s3 hg3 hb3 hp3
       | some r =>
         obtain ⟨idx, entry, pos⟩ := r
         simp only [wp_bind]
